@@ -925,6 +925,29 @@ fn main() {
             std::process::exit(0);
         }
         // recovery_scenario two_wals_stale_sequence|two_wals_reuse : two write-ahead logs at or above the manifest's WAL number
+        "vs_recover" => {
+            // a database is created, written and closed; a fresh version set recovers from its files
+            use raindb::WriteOptions;
+            let mut o = raindb::DbOptions::with_memory_env();
+            o.db_path = "db".to_string();
+            o.create_if_missing = true;
+            o.reuse_log_files = a[1] == "reuse";
+            {
+                let db = raindb::DB::open(o.clone()).expect("open");
+                for k in ["k1", "k2", "k3"] {
+                    db.put(WriteOptions::default(), k.as_bytes().to_vec(), b"v".to_vec()).unwrap();
+                }
+            }
+            match v::vset_recover_numbers(o.clone()) {
+                Some((named, next_manifest, next_file, reused)) => {
+                    println!("current_manifest={}", named);
+                    println!("next_manifest={}", next_manifest);
+                    println!("next_file_number={}", next_file);
+                    println!("reused={}", reused);
+                }
+                None => println!("recover=failed"),
+            }
+        }
         "recovery_scenario" => {
             use raindb::{ReadOptions, WriteOptions};
             let mut o = raindb::DbOptions::with_memory_env();
